@@ -21,6 +21,13 @@ pub struct BfsStats {
     pub closed: bool,
     pub max_depth: usize,
     pub states_per_depth: Vec<u64>,
+    /// the search stopped because more than `max_states` states were discovered (a state space that does not close)
+    pub capped: bool,
+}
+
+/// Upper bound on the number of states of one search; 0 = none. Set by the caller before `bfs` (thread-local).
+thread_local! {
+    pub static MAX_STATES: std::cell::Cell<u64> = const { std::cell::Cell::new(0) };
 }
 
 pub fn bfs<S, A, K, E, V, I>(
@@ -96,6 +103,12 @@ where
         }
         if next.is_empty() {
             stats.closed = true;
+            break;
+        }
+        let cap = MAX_STATES.with(|c| c.get());
+        if cap > 0 && stats.states + next.len() as u64 > cap {
+            stats.closed = false;
+            stats.capped = true;
             break;
         }
         frontier = next;
